@@ -79,6 +79,10 @@ func (fg *FnGen) step(fr *Frame, b *ssa.BasicBlock, ins ssa.Instruction, st *Sta
 		fg.freshSubObjects(ref, elem, 0)
 		if (!x.Heap || capturedReadOnly(x) || nonEscaping(x)) && fr.top && !fg.noDefs {
 			fg.stackCells = append(fg.stackCells, stackCell{ref: ref, ty: elem, src: x})
+		} else if fr.top && !fg.noDefs {
+			if sites, ok := escapeSites(x); ok {
+				fg.lateCells = append(fg.lateCells, lateCell{stackCell{ref: ref, ty: elem, src: x}, sites})
+			}
 		}
 		fg.storeValue(st, ref, elem, ti.zeroOf(elem))
 		if arr, ok := elem.Underlying().(*types.Array); ok && ti.sortOf(elem) == SString {
